@@ -3,6 +3,7 @@ import PyYetiVerif.Props.C05Gen
 import PyYetiVerif.Props.C05Struct
 import PyYetiVerif.Props.C05TwoPass
 import PyYetiVerif.Props.C05Dup
+import PyYetiVerif.Props.C05Plateau
 #print axioms PyYetiVerif.C05.count_total
 #print axioms PyYetiVerif.C05.rows_total
 #print axioms PyYetiVerif.C05.cycle_values
@@ -45,3 +46,9 @@ import PyYetiVerif.Props.C05Dup
 #print axioms PyYetiVerif.C05.generated_c_twopass_eq_fast
 #print axioms PyYetiVerif.C05.twopass_count_eq_length
 #print axioms PyYetiVerif.C05.duplicate_insertion_interior
+#print axioms PyYetiVerif.C05.plateau_zero_rows
+#print axioms PyYetiVerif.C05.plateau_insertion_general
+#print axioms PyYetiVerif.C05.plateau_ends_record
+#print axioms PyYetiVerif.C05.plateau_at_start
+#print axioms PyYetiVerif.C05.rainflow_plateau_parity
+#print axioms PyYetiVerif.C05.rainflow_plateau_compress_false
